@@ -717,6 +717,14 @@ static void run_line(char *line)
 			}
 		}
 		emit_common(s, sid, st); jb_printf("}\n"); jb_flush();
+	} else if (!strcmp(op, "zero")) {
+		/* the application overwrites one of its source symbols with zeros between two encoding calls (next block in
+		 * recycled buffers, in-place update): later repair symbols must be computed from the table as it is now */
+		uint32_t i = AU(1);
+		if (s->configured && i < s->k) {
+			memset(s->cw[i], 0, s->len); memset(s->orig[i], 0, s->len);
+			jb_printf("{\"e\":\"Zero\",\"x\":%ld,\"s\":%d,\"i\":%u}\n", g_exec, sid, i); jb_flush();
+		}
 	} else if (!strcmp(op, "recv")) {
 		uint32_t esi = AU(1);
 		void *buf = (s->configured && esi < s->n) ? s->cw[esi] : (void *)s;
